@@ -400,7 +400,7 @@ def run_multi(items):
     viols = []
     with World(CFG2, env={'api.version': 6}) as wd:
         wd.settle()
-        child = {name: [k for k, c in wd.children.items() if c is proc][0] for name, proc in wd.reactor.processes._process.items()}
+        child = wd.children_by_service()
         if sorted(child) != sorted(SCOPES):
             raise core.HarnessError(f'helper processes {sorted(child)}')
         for svc, c in items:
